@@ -24,6 +24,12 @@ func gen(g *vh.Gen) {
 		stream := smtpd.GenDialogue(g, c, pool, oo)
 		g.Emit("smtp", append(c.Fields(), vh.H(stream))...)
 	}
+	// error storms: many faulty lines on one connection, then an ordinary transaction
+	for i := 0; i < g.N(4, 80); i++ {
+		c, pool := smtpd.GenCfg(g, smtpd.Opts{})
+		stream := smtpd.GenErrorStorm(g, &c, pool, g.Pick2(9, 19, 20, 21, 40, 101))
+		g.Emit("smtp", append(c.Fields(), vh.H(stream))...)
+	}
 	// every byte cut of valid dialogues
 	oc := smtpd.Opts{Garbage: 0.02, MaxBody: 40}
 	for i := 0; i < g.N(8, 400); i++ {
